@@ -27,7 +27,7 @@ theorem popDev_meas_data (dg : Bool) (size : Nat) (d : Script) (b : Bytes)
         split
         · simp [meas, devBytes]; omega
         · rename_i hdg
-          simp only [hdg, if_false, Rx.data.injEq] at h
+          simp only [hdg] at h
           have hs : 0 < size := by
             rcases Nat.eq_zero_or_pos size with h0 | h0
             · subst h0; simp at h; exact (hb h).elim
@@ -64,7 +64,7 @@ theorem readFromSocket_progress (s : St) (size : Nat) :
   | data b =>
     by_cases hb : b.isEmpty = true
     · simp only [hb, if_true]
-    · simp only [hb, if_false]
+    · simp only [hb]
       exact h1 b rfl (by simpa using hb)
   | timeout => trivial
   | eof => trivial
@@ -183,7 +183,7 @@ theorem sockDiscardLoop_fuel : ∀ (fuel : Nat) (s : St), meas s.dev < fuel →
       split
       · rename_i hb; simp [hb] at h
       · rename_i hb
-        simp only [hb, if_false] at h
+        simp only [hb] at h
         have := h1 b rfl (by simpa using hb)
         exact ih _ (by show meas d' < fuel; simp only at this; omega) h
 
@@ -258,7 +258,7 @@ theorem serUntilLoop_fuel (term : Bytes) (timeout : Option Int) (tstart : Nat) :
     split
     · rename_i hg; simp [hg] at h
     · rename_i hg
-      simp only [hg, if_false] at h
+      simp only [hg] at h
       have hP := serRead_progress s 1 (by omega)
       generalize serRead s 1 = rr at *
       obtain ⟨s1, ob⟩ := rr
@@ -271,7 +271,7 @@ theorem serUntilLoop_fuel (term : Bytes) (timeout : Option Int) (tstart : Nat) :
         split
         · rename_i he; simp [he, takeAll] at h
         · rename_i he
-          simp only [he, if_false] at h
+          simp only [he] at h
           cases timeout with
           | none => exact ih _ _ hm2 h
           | some t => exact ih _ _ hm2 h
